@@ -361,8 +361,9 @@ class Reader:
                 alignment = self.parse_integer()
                 ins = ir.Alloc(name, size, alignment)
             elif a == "load":
+                volatile = self.parse_volatile()
                 address = self.parse_value_ref()
-                ins = ir.Load(address, name, ty)
+                ins = ir.Load(address, name, ty, volatile=volatile)
             elif a == "cast":
                 value = self.parse_value_ref()
                 ins = ir.Cast(value, name, ty)
@@ -410,6 +411,13 @@ class Reader:
     def parse_id(self):
         return self.consume("ID")[1]
 
+    def parse_volatile(self):
+        """Parse the optional volatile marker of a load or store."""
+        volatile = self.at_keyword("volatile")
+        if volatile:
+            self.consume_keyword("volatile")
+        return volatile
+
     def parse_value_ref(self, ty=ir.ptr):
         """Parse a reference to another variable."""
         return self.find_value(self.parse_id(), ty=ty)
@@ -427,10 +435,11 @@ class Reader:
             ins = self.parse_return()
         elif self.at_keyword("store"):
             self.consume_keyword("store")
+            volatile = self.parse_volatile()
             value = self.parse_value_ref()
             self.consume(",")
             address = self.parse_value_ref()
-            ins = ir.Store(value, address)
+            ins = ir.Store(value, address, volatile=volatile)
         elif self.at_keyword("memcpy"):
             self.consume_keyword("memcpy")
             self.consume("(")
